@@ -134,6 +134,7 @@ Record sc_world := mk_sc_world {
   w_loaders : list sc_loader;          (* Engine.loaders in registration order *)
   w_chain : bool;                      (* all of them behind one ChainLoader *)
   w_reg : list (bytes * sc_src);       (* RegisterString calls made while configuring *)
+  w_regt : list (bytes * sc_src);      (* RegisterTemplate(name, ParseTemplate(source)) made while configuring: the Template has no name of its own *)
   w_types : list (list bytes);         (* field names of the struct types of context values *)
   w_cache : bool;                      (* Environment.cache *)
   w_auto : bool                        (* Engine.autoReload *)
@@ -166,7 +167,13 @@ Fixpoint sc_loaders_src (ls : list sc_loader) (n : bytes) : option sc_src :=
   end.
 (* THE source of a name *)
 Definition sc_src_of (w : sc_world) (n : bytes) : option sc_src :=
-  match sc_loaders_src (w_loaders w) n with Some s => Some s | None => assoc_bytes (w_reg w) n end.
+  match sc_loaders_src (w_loaders w) n with
+  | Some s => Some s
+  | None => match assoc_bytes (w_reg w) n with Some s => Some s | None => assoc_bytes (w_regt w) n end
+  end.
+(* Template.name of what Load(n) returns: the name, except for a template registered without one *)
+Definition sc_name_of (w : sc_world) (n : bytes) : bytes :=
+  match assoc_bytes (w_regt w) n with Some _ => [] | None => n end.
 
 Fixpoint sc_index_of (a : bytes) (l : list bytes) (i : nat) : option nat :=
   match l with [] => None | x :: r => if bytes_eqb x a then Some i else sc_index_of a r (S i) end.
@@ -175,8 +182,8 @@ Definition sc_attr_resolve (w : sc_world) (ty : nat) (a : bytes) : option nat :=
   sc_index_of a (nth ty (w_types w) []) 0.
 
 (* ------------------------------------------------------------------ shared state *)
-(* Template.nodes / loader / lastModified of a *Template in Engine.templates *)
-Record sc_entry := mk_sc_entry { en_tpl : sc_tpl; en_loader : option nat; en_mtime : Z }.
+(* Template.nodes / name / loader / lastModified of a *Template in Engine.templates *)
+Record sc_entry := mk_sc_entry { en_tpl : sc_tpl; en_name : bytes; en_loader : option nat; en_mtime : Z }.
 
 Record sc_shared := mk_sc_shared {
   sh_cache : list (bytes * sc_entry);            (* Engine.templates, guarded by Engine.mu *)
@@ -462,7 +469,7 @@ Definition sc_finish (w : sc_world) (n : bytes) (s : sc_src) (li : nat) (mt : Z)
     (match sc_parse s with
      | None => ScRet ScLBad
      | Some t => if w_cache w
-                 then ScStep (ScOpCacheWrite ScWLoad n (mk_sc_entry t (Some li) mt)) (fun _ => ScRet (ScLOk n t))
+                 then ScStep (ScOpCacheWrite ScWLoad n (mk_sc_entry t n (Some li) mt)) (fun _ => ScRet (ScLOk n t))
                  else ScRet (ScLOk n t)
      end).
 
@@ -512,17 +519,17 @@ Definition sc_load (w : sc_world) (n : bytes) : sc_prog sc_lres :=
     match a with
     | ScRCache (Some e) =>
         match en_loader e with
-        | None => ScRet (ScLOk n (en_tpl e))                      (* registered: served whatever the settings *)
+        | None => ScRet (ScLOk (en_name e) (en_tpl e))                      (* registered: served whatever the settings *)
         | Some li =>
             if w_cache w then
-              if negb (w_auto w) then ScRet (ScLOk n (en_tpl e))
+              if negb (w_auto w) then ScRet (ScLOk (en_name e) (en_tpl e))
               else if sc_loader_ts w li then
                 ScStep (ScOpLoaderStat li n) (fun a2 =>
                   match a2 with
-                  | ScRStat (Some t) => if Z.gtb t (en_mtime e) then sc_reload w n else ScRet (ScLOk n (en_tpl e))
+                  | ScRStat (Some t) => if Z.gtb t (en_mtime e) then sc_reload w n else ScRet (ScLOk (en_name e) (en_tpl e))
                   | _ => sc_reload w n
                   end)
-              else ScRet (ScLOk n (en_tpl e))
+              else ScRet (ScLOk (en_name e) (en_tpl e))
             else sc_reload w n
         end
     | _ => sc_reload w n
@@ -701,7 +708,7 @@ Definition sc_call_prog (fuel : nat) (v : sc_variant) (w : sc_world) (c : sc_cal
       sc_intern_list (sc_src_idents s)
         (match sc_parse s with
          | None => ScRet (ScOErr ScEOther)
-         | Some t => ScStep (ScOpCacheWrite ScWReg n (mk_sc_entry t None 0%Z)) (fun _ => ScRet (ScOOk []))
+         | Some t => ScStep (ScOpCacheWrite ScWReg n (mk_sc_entry t n None 0%Z)) (fun _ => ScRet (ScOOk []))
          end)
   end.
 
@@ -741,18 +748,32 @@ Fixpoint sc_init_cache (reg : list (bytes * sc_src)) : list (bytes * sc_entry) :
   match reg with
   | [] => []
   | (n, s) :: r => match sc_parse s with
-                   | Some t => (n, mk_sc_entry t None 0%Z) :: sc_init_cache r
+                   | Some t => (n, mk_sc_entry t n None 0%Z) :: sc_init_cache r
                    | None => sc_init_cache r
                    end
   end.
+(* RegisterTemplate(n, ParseTemplate(s)): Template.name stays empty *)
+Fixpoint sc_init_cache_t (reg : list (bytes * sc_src)) : list (bytes * sc_entry) :=
+  match reg with
+  | [] => []
+  | (n, s) :: r => match sc_parse s with
+                   | Some t => (n, mk_sc_entry t [] None 0%Z) :: sc_init_cache_t r
+                   | None => sc_init_cache_t r
+                   end
+  end.
 Definition sc_init_shared (w : sc_world) : sc_shared :=
-  mk_sc_shared (sc_init_cache (w_reg w)) (map (fun _ => []) (w_loaders w)) [] [] [].
+  mk_sc_shared (sc_init_cache (w_reg w) ++ sc_init_cache_t (w_regt w)) (map (fun _ => []) (w_loaders w)) [] [] [].
 
 Definition sc_init_with (fuel : nat) (v : sc_variant) (w : sc_world) (threads : list (list sc_call)) : sc_state :=
   mk_sc_state (sc_init_shared w) (map (sc_thread_prog fuel v w) threads).
 (* the model of the tree as it is now *)
 Definition sc_init (fuel : nat) (w : sc_world) (threads : list (list sc_call)) : sc_state :=
   sc_init_with fuel sc_cur_variant w threads.
+
+(* a later phase of a workload: the engine as the previous phase left it (sh), the world as it is now (files may
+   have been rewritten while no call was running), new calls *)
+Definition sc_phase_state (fuel : nat) (w : sc_world) (sh : sc_shared) (threads : list (list sc_call)) : sc_state :=
+  mk_sc_state sh (map (sc_thread_prog fuel sc_cur_variant w) threads).
 
 (* the calls one after another: thread i runs alone for k steps, then the next one *)
 Definition sc_serial_schedule (order : list nat) (k : nat) : list nat := flat_map (fun i => repeat i k) order.
